@@ -3,6 +3,7 @@
   function the property names (Spec/C05: `roundTo`, half away from zero).
 -/
 import GoblVerif.Spec.C05
+import GoblVerif.Spec.C02
 import GoblVerif.Model.Calc
 
 namespace GoblVerif.Spec.C01
@@ -125,6 +126,45 @@ def exactQ (d : Doc) : TotalsQ :=
       match a.percent with | some p => twt * pq p | none => a.amount.toRat).sum else 0
   { sum, discount, charge, taxIncluded := inc, total, tax, totalWithTax := twt, payable, advances,
     due := payable - advances }
+
+/-! ## the rows of the tax summary in exact arithmetic -/
+
+/-- a row total with the included tax taken out by an exact division (the `t'` of `rowTaxQ`) -/
+def exclQ (includes : Option String) (t : Rat) (taxes : List Combo) : Rat :=
+  match includes with
+  | none => t
+  | some k =>
+    match taxes.find? (fun cb => cb.cat == k) with
+    | some cb => (match cb.percent with | some p => t / (1 + pq p) | none => t)
+    | none => t
+
+/-- the rows the tax summary is built from, exactly: line totals, document discounts (negated),
+document charges, each with the included tax taken out, and their combos -/
+def exactTaxRows (d : Doc) : List (Rat × List Combo) :=
+  let lts := d.lines.map (fun l => (lineTotalQ d.cur d.rates l, l.taxes))
+  let sum := (lts.filterMap (·.1)).sum
+  let ds := d.discounts.map (fun x => (docAdjQ sum x, x.taxes))
+  let cs := d.charges.map (fun x => (docAdjQ sum x, x.taxes))
+  let rows : List (Rat × List Combo) :=
+    lts.filterMap (fun x => x.1.map (fun t => (t, x.2))) ++ ds.map (fun x => (-x.1, x.2)) ++ cs
+  rows.map (fun r => (exclQ d.includes r.1 r.2, r.2))
+
+/-- exact amount of tax category `k`: Σ rows Σ combos of the category, row × percentage -/
+def catAmountQ (d : Doc) (k : String) : Rat :=
+  ((exactTaxRows d).map (fun r => ((r.2.filter (fun cb => cb.cat == k)).map
+    (fun cb => match cb.percent with | some p => r.1 * pq p | none => 0)).sum)).sum
+
+/-- exact surcharge of tax category `k` -/
+def catSurchargeQ (d : Doc) (k : String) : Rat :=
+  ((exactTaxRows d).map (fun r => ((r.2.filter (fun cb => cb.cat == k)).map
+    (fun cb => match cb.percent with
+      | some _ => r.1 * (match cb.surcharge with | some s => pq s | none => 0)
+      | none => 0)).sum)).sum
+
+/-- exact base of the rate group `key` of category `cat`: the row once per combo of the group -/
+def groupBaseQ (d : Doc) (cat : String) (key : Spec.C02.GroupKey) : Rat :=
+  ((exactTaxRows d).map (fun r => ((r.2.filter
+    (fun cb => decide (cb.cat = cat ∧ Spec.C02.keyOfCombo cb = key))).map (fun _ => r.1)).sum)).sum
 
 end GoblVerif.Spec.C01
 
@@ -267,6 +307,10 @@ def kN (inc : Option String) (taxes : List Combo) : Nat :=
   match inc with
   | none => 0
   | some k => (taxes.filter (fun cb => cb.cat == k)).length
+
+/-- number of combos of the rate group `(cat, key)` on a row -/
+def gN (cat : String) (key : Spec.C02.GroupKey) (taxes : List Combo) : Nat :=
+  (taxes.filter (fun cb => decide (cb.cat = cat ∧ Spec.C02.keyOfCombo cb = key))).length
 
 /-- the rows' errors carried into a quantity that is `L taxes`-Lipschitz in the row total: lines with
 their own weight, document discounts / charges with 1 + the weight of the sum, each plus `incB` -/
